@@ -35,11 +35,20 @@ pub trait CellIntegral: Sized + Send {
 
 /// Trait to implement new integrators that use external data in their
 /// calculation.
-pub trait CellIntegralWithData: CellIntegral {
+///
+/// Implement this trait *instead of* [`CellIntegral`] for integrators that need extra data
+/// (every [`CellIntegral`] is a [`CellIntegralWithData`] with `Data = ()`).
+pub trait CellIntegralWithData: Sized + Send {
     type Data: Copy;
 
     /// Initialize a [`CellIntegral`] with some extra data.
     fn init_with_data<M: ConvexCellMarker>(cell: &ConvexCell<M>, data: Self::Data) -> Self;
+
+    /// See [`CellIntegral::collect`].
+    fn collect(&mut self, v0: DVec3, v1: DVec3, v2: DVec3, gen: DVec3);
+
+    /// See [`CellIntegral::finalize`].
+    fn finalize(self) -> Self;
 }
 
 impl<T: CellIntegral> CellIntegralWithData for T {
@@ -47,6 +56,14 @@ impl<T: CellIntegral> CellIntegralWithData for T {
 
     fn init_with_data<M: ConvexCellMarker>(cell: &ConvexCell<M>, _data: ()) -> Self {
         T::init(cell)
+    }
+
+    fn collect(&mut self, v0: DVec3, v1: DVec3, v2: DVec3, gen: DVec3) {
+        CellIntegral::collect(self, v0, v1, v2, gen)
+    }
+
+    fn finalize(self) -> Self {
+        CellIntegral::finalize(self)
     }
 }
 
@@ -173,7 +190,10 @@ pub trait FaceIntegral: Clone + Send {
 /// Trait to implement new integrators that use external data in their
 /// calculation.
 /// The data is the cloned for all faces of a [`ConvexCell`].
-pub trait FaceIntegralWithData: FaceIntegral {
+///
+/// Implement this trait *instead of* [`FaceIntegral`] for integrators that need extra data
+/// (every [`FaceIntegral`] is a [`FaceIntegralWithData`] with `Data = ()`).
+pub trait FaceIntegralWithData: Clone + Send {
     type Data: Copy;
 
     /// Initialize a [`CellIntegral`] with some extra data.
@@ -182,6 +202,12 @@ pub trait FaceIntegralWithData: FaceIntegral {
         clipping_plane_idx: usize,
         data: Self::Data,
     ) -> Self;
+
+    /// See [`FaceIntegral::collect`].
+    fn collect(&mut self, v0: DVec3, v1: DVec3, v2: DVec3, gen: DVec3);
+
+    /// See [`FaceIntegral::finalize`].
+    fn finalize(self) -> Self;
 }
 
 impl<T: FaceIntegral> FaceIntegralWithData for T {
@@ -193,6 +219,14 @@ impl<T: FaceIntegral> FaceIntegralWithData for T {
         _data: (),
     ) -> Self {
         T::init(cell, clipping_plane_idx)
+    }
+
+    fn collect(&mut self, v0: DVec3, v1: DVec3, v2: DVec3, gen: DVec3) {
+        FaceIntegral::collect(self, v0, v1, v2, gen)
+    }
+
+    fn finalize(self) -> Self {
+        FaceIntegral::finalize(self)
     }
 }
 
